@@ -1,0 +1,9 @@
+// Verification hooks are compiled out without -tags verif.
+
+//go:build !verif
+
+package stack
+
+import "io"
+
+func verifTrace(io.Reader, state, state, []byte, bool, error) {}
